@@ -132,6 +132,16 @@ def handle : List String → String
         | .ok l => "ok " ++ encLists l
         | .error e => "exc " ++ e.name
     | _, _, _ => "bad-arg"
+  | ["rewrite", ds, enc, u, lowerT, idnaT, ipv6T, unqT, encT] =>
+    match mkCfg ds enc lowerT idnaT ipv6T unqT encT, mkCfg "=68.74.74.70" "utf8" lowerT idnaT ipv6T unqT encT, decList? u with
+    | some c, some c', some u =>
+      match parse c u with
+      | .error e => "exc " ++ e.name
+      | .ok i =>
+        match rewriteEscaped c' i with
+        | .ok j => "ok " ++ encRes j.url
+        | .error e => "exc " ++ e.name
+    | _, _, _ => "bad-arg"
   | ["orlog", ds, enc, u, lowerT, idnaT, ipv6T, unqT, encT] =>
     match mkCfg ds enc lowerT idnaT ipv6T unqT encT, decList? u with
     | some c, some u =>
